@@ -2,6 +2,7 @@ package engine
 
 import (
 	"fmt"
+	"strings"
 	"go/token"
 	"go/types"
 	"reflect"
@@ -219,9 +220,7 @@ func (nt *NativeTable) FromNative(prog *ssa.Program, rv reflect.Value, st types.
 		}
 		return Iface{T: dt, V: nt.FromNative(prog, rv, dt)}
 	case *types.Pointer:
-		if rv.Kind() == reflect.Ptr && rv.IsNil() {
-			return Pointer{}
-		}
+		// typed nil pointers stay native values (some library methods are nil-safe)
 		return Host{V: rv.Interface()}
 	case *types.Slice:
 		if rv.IsNil() {
@@ -276,7 +275,7 @@ func (nt *NativeTable) Call(r *Run, fn *ssa.Function, args []Value) (res Value, 
 			rcv = a.V
 		case Pointer:
 			if a.Slot == nil {
-				// nil receiver: the real method would dereference nil in almost all cases
+				// untyped engine nil: no native receiver can be formed
 				panic(&TargetPanic{Kind: "nil-deref", Msg: "method " + name + " called on nil receiver", Pos: "?"})
 			}
 			return nil, false
@@ -294,7 +293,7 @@ func (nt *NativeTable) Call(r *Run, fn *ssa.Function, args []Value) (res Value, 
 		default:
 			return nil, false
 		}
-		if isNilHost(rcv) {
+		if rcv == nil {
 			panic(&TargetPanic{Kind: "nil-deref", Msg: "method " + name + " called on nil receiver", Pos: "?"})
 		}
 		m := reflect.ValueOf(rcv).MethodByName(fn.Name())
@@ -341,7 +340,11 @@ func (nt *NativeTable) Call(r *Run, fn *ssa.Function, args []Value) (res Value, 
 	func() {
 		defer func() {
 			if rec := recover(); rec != nil {
-				panic(&TargetPanic{Kind: "native-panic", Msg: fmt.Sprintf("%s: %v", name, rec), Pos: "?"})
+				kind := "native-panic"
+				if isNilHost(in0(in, f)) || strings.Contains(fmt.Sprint(rec), "nil pointer") {
+					kind = "nil-deref"
+				}
+				panic(&TargetPanic{Kind: kind, Msg: fmt.Sprintf("%s: %v", name, rec), Pos: "?"})
 			}
 		}()
 		outs = f.Call(in)
@@ -386,7 +389,7 @@ func (nt *NativeTable) Global(prog *ssa.Program, g *ssa.Global) (Value, bool) {
 
 // CallMethod invokes an exported method on a host receiver (interface method call).
 func (nt *NativeTable) CallMethod(r *Run, rcv interface{}, m *types.Func, args []Value) (Value, bool) {
-	if nt == nil || isNilHost(rcv) {
+	if nt == nil || rcv == nil {
 		return nil, false
 	}
 	f := reflect.ValueOf(rcv).MethodByName(m.Name())
@@ -437,3 +440,5 @@ func (nt *NativeTable) CallMethod(r *Run, rcv interface{}, m *types.Func, args [
 	}
 	return tu, true
 }
+
+func in0(in []reflect.Value, f reflect.Value) interface{} { return nil }
